@@ -45,6 +45,11 @@ const char *mc_casedesc(void);
 /* Human-readable history (valid inside apply()) */
 const char *mc_history_text(void);
 
+/* Crash attribution for harnesses that enumerate cases themselves: returns 1 when this
+ * case already crashed in an earlier child (skip it; the violation is recorded). */
+int guard_enter(const char *sigbase, const char *casedesc);
+void guard_leave(void);
+
 /* Runs body() in a forked child with crash/hang attribution; returns exit code. */
 int mc_guarded_main(void (*body)(void));
 
